@@ -39,11 +39,12 @@ func (ex *Explorer) bound(name string, def int64) int64 {
 type syncState struct {
 	once map[*value]bool
 	wg   map[*value]int64
+	held map[*value]int // mutex state: 0 free, -1 write-locked, n>0 read-locked n times
 }
 
 func (i *interpreter) sync() *syncState {
 	if i.syncSt == nil {
-		i.syncSt = &syncState{once: map[*value]bool{}, wg: map[*value]int64{}}
+		i.syncSt = &syncState{once: map[*value]bool{}, wg: map[*value]int64{}, held: map[*value]int{}}
 	}
 	return i.syncSt
 }
@@ -53,11 +54,9 @@ func init() {
 	nop := func(fr *frame, a []value) value { return nil }
 
 	// ---- sync
-	for _, n := range []string{"(*sync.Mutex).Lock", "(*sync.Mutex).Unlock", "(*sync.RWMutex).Lock", "(*sync.RWMutex).Unlock",
-		"(*sync.RWMutex).RLock", "(*sync.RWMutex).RUnlock", "runtime.Gosched", "runtime.KeepAlive", "runtime.SetFinalizer"} {
+	for _, n := range []string{"runtime.Gosched", "runtime.KeepAlive", "runtime.SetFinalizer"} {
 		reg(n, nop)
 	}
-	reg("(*sync.Mutex).TryLock", func(fr *frame, a []value) value { return true })
 	reg("(*sync.Once).Do", func(fr *frame, a []value) value {
 		st := fr.i.sync()
 		p := a[0].(*value)
@@ -89,12 +88,61 @@ func init() {
 	reg("(*sync.WaitGroup).Wait", func(fr *frame, a []value) value {
 		st := fr.i.sync()
 		p := a[0].(*value)
-		for st.wg[p] > 0 {
-			if !fr.i.sched.runPending() {
-				panic(pathEnd{reason: "deadlock", detail: "WaitGroup.Wait with counter " + fmt.Sprint(st.wg[p]) + " and no runnable goroutine"})
-			}
+		if st.wg[p] > 0 {
+			fr.i.sched.block("WaitGroup.Wait", func() bool { return st.wg[p] <= 0 })
 		}
 		return nil
+	})
+	// mutexes: real exclusion between the coroutines (a goroutine that blocks
+	// inside a critical section keeps the others out)
+	lock := func(fr *frame, a []value) value {
+		st := fr.i.sync()
+		p := a[0].(*value)
+		if st.held[p] != 0 {
+			fr.i.sched.block("Mutex.Lock", func() bool { return st.held[p] == 0 })
+		}
+		st.held[p] = -1
+		return nil
+	}
+	unlock := func(fr *frame, a []value) value {
+		st := fr.i.sync()
+		p := a[0].(*value)
+		if st.held[p] == 0 {
+			panic(targetPanic{runtime: true, msg: "sync: unlock of unlocked mutex"})
+		}
+		st.held[p] = 0
+		return nil
+	}
+	reg("(*sync.Mutex).Lock", lock)
+	reg("(*sync.Mutex).Unlock", unlock)
+	reg("(*sync.RWMutex).Lock", lock)
+	reg("(*sync.RWMutex).Unlock", unlock)
+	reg("(*sync.RWMutex).RLock", func(fr *frame, a []value) value {
+		st := fr.i.sync()
+		p := a[0].(*value)
+		if st.held[p] < 0 {
+			fr.i.sched.block("RWMutex.RLock", func() bool { return st.held[p] >= 0 })
+		}
+		st.held[p]++
+		return nil
+	})
+	reg("(*sync.RWMutex).RUnlock", func(fr *frame, a []value) value {
+		st := fr.i.sync()
+		p := a[0].(*value)
+		if st.held[p] <= 0 {
+			panic(targetPanic{runtime: true, msg: "sync: RUnlock of unlocked RWMutex"})
+		}
+		st.held[p]--
+		return nil
+	})
+	reg("(*sync.Mutex).TryLock", func(fr *frame, a []value) value {
+		st := fr.i.sync()
+		p := a[0].(*value)
+		if st.held[p] != 0 {
+			return false
+		}
+		st.held[p] = -1
+		return true
 	})
 
 	// ---- sync/atomic on plain cells
